@@ -244,6 +244,7 @@ def p_scale(a, k):
 
 
 DEADLINE = [None]  # wall-clock limit for the normal-form computation of ONE comparison (set by the runner)
+EXPLORE_DEADLINE = [None]  # wall-clock limit for the whole path exploration of one harness run (set by the runner)
 
 
 def p_mul(a, b):
@@ -252,6 +253,8 @@ def p_mul(a, b):
         return {}
     if DEADLINE[0] is not None and len(a) * len(b) > 64 and _time.time() > DEADLINE[0]:
         raise Undecided("bringing the two values over a common denominator exceeds the time budget of one comparison")
+    if EXPLORE_DEADLINE[0] is not None and len(a) * len(b) > 64 and _time.time() > EXPLORE_DEADLINE[0]:
+        raise Undecided("the exploration of the value-dependent paths of this harness exceeds its time budget")
     if len(a) < len(b):
         a, b = b, a
     r = {}
